@@ -125,6 +125,18 @@ func c09(c *Ctx) {
 		}
 	}
 
+	// every value handed out went through the length-and-digest comparison of readValueAt: the value length of an entry is
+	// not covered by any hash, so "length 0" read from a damaged record proves nothing (known finding: the empty-value
+	// shortcut of ReadValue / Resolve returns before any comparison)
+	for _, name := range []string{storeT + "ReadValue", "embedded/store.(*valueRef).Resolve"} {
+		if f := c.mustFn(r, name); f != nil {
+			q := &pathQ{fn: f, fromEntry: true, to: successReturn, via: callTo(storeT + "readValueAt")}
+			w := q.bypass()
+			c.check(w == nil, r, fnName(f)+":every-value-is-digest-checked", c.pos(f.Pos()), "every successful return passes readValueAt",
+				"a value (the empty one) is returned without comparing anything with the entry's hVal: "+c.witnessStr(w))
+		}
+	}
+
 	// ---- C09.2 skip-flag discipline ---------------------------------------------------------------------------------
 	r = "C09.2/skip-flag"
 	nskip := 0
